@@ -75,6 +75,11 @@ P = {
          "hand-off sends are non-blocking with counted drops and a fixed worker pool, every blocking wait in the pipeline includes the stop signal, lock order is acyclic and nothing blocking runs under the registration lock except the reviewed Redis publish. "
          "These are necessary conditions for race-freedom, announce-once, non-stalling overload and bounded shutdown; serializability and lost updates are not decided.",
          "4/C09"),
+ "C10": (True, "value-flow of the message literals, constant pairing, interface-implementation enumeration (GetProto), cross-language contract check against rules extracted at token level from src/sessions.rs (go/ssa + text extraction)",
+         "Decides for every registration: each announcement field is taken from the designated registration field / parameter; New is paired with the unused lifetime and Update with the active lifetime, the same variables the station expires by; every deployed transport's protocol is a TCP/UDP constant and PhantomProto is written only from it; "
+         "the detector's acceptance rules (accepted protocol arms, phantom and client parse requirements, empty-client exception for IPv6 phantoms, v4/v6 mix rejection, conversion before operation dispatch) are extracted from src/sessions.rs on every run and every StationToDetector message the Go side builds — including the shutdown clear — is shown to satisfy them; Cleanup is deferred before signal handling. "
+         "The Rust side is read at token level (cannot be type-checked offline); Redis delivery and IP-literal well-formedness of every admitted address are not decided.",
+         "4/C10"),
  "C12": (True, "must-alias (must-equal set) dataflow for the response object, must-pass/guard dominance, who-may-read, loop-exit shape rules (go/ssa)",
          "Decides: client-supplied response cleared on every path into processing; the forwarded wrapper is rebuilt from a fresh object with signature fields only from the registrar's own Marshal/Sign; at every successful return the pointer handed to the client is provably the object attached to the forwarded wrapper (must-equal analysis with Override modelled as havoc); "
          "parameter overrides gated by the client's flag on registrar and station; the station applies the response's port and the address of its own family; each weighted override loop exits at its first match; exclusions precede any address override. "
